@@ -54,6 +54,7 @@ func runC20(p *eng.Prog, r *eng.Report, tier string) {
 	g := f.Graph()
 	c20AccumulatorsPerIteration(c, "C20.8", f)
 	c20WholeListsHashed(c, "C20.22", f)
+	c20EveryNameCanBeLookedUp(c, "C20.23")
 	c20SortsCopies(c, "C20.9")
 	c20ComparatorsAreOrders(c, "C20.10")
 	c20DecoderKeepsEveryValue(c, "C20.11")
@@ -1160,4 +1161,51 @@ func c20WholeListsHashed(c *cx, id string, f *eng.Fn) {
 		}
 	}
 	c.r.Floor(id, "definitions of the hashed lists", n, 3)
+}
+
+// c20EveryNameCanBeLookedUp (C20.23): AppendHash reads the values of every
+// field through form.(*Data).Raw(name) - also those of a field without a var
+// (a fixed field of extended information), whose name is the empty string.
+// Raw gives up before looking at the fields for a nil form only: a "not found"
+// return that is reachable without the scan of the fields has exactly the
+// guard recv == nil. A guard on the name (`id == ""`) drops the values of
+// var-less fields from the hash.
+func c20EveryNameCanBeLookedUp(c *cx, id string) {
+	f := c.fn(id, "form", "(*Data).Raw")
+	if f == nil {
+		return
+	}
+	g := f.Graph()
+	var loop *ast.RangeStmt
+	f.WalkBody(func(nd ast.Node) bool {
+		if rs, ok := nd.(*ast.RangeStmt); ok && loop == nil {
+			loop = rs
+		}
+		return true
+	})
+	if loop == nil {
+		c.r.Unresolved(id, "scan of the fields in form.(*Data).Raw")
+		return
+	}
+	_, head, _, okl := g.LoopPoints(loop)
+	n := 0
+	for _, rs := range g.Returns {
+		if len(rs.Results) != 2 || f.Norm(rs.Results[1], nil) != "false" {
+			continue
+		}
+		rp, _ := g.Where(rs)
+		// reachable without entering the scan?
+		if okl {
+			cut := eng.Cut{}
+			for si := range g.Blocks[head.B].Succs {
+				cut[eng.Edge{B: head.B, S: si}] = true
+			}
+			if !g.Reachable(g.Entry(), rp, cut, nil) {
+				continue
+			}
+		}
+		n++
+		c.onlyFacts(id, f, rs, "not-found answer before the scan", []string{"eq(recv,nil)"})
+	}
+	c.r.Floor(id, "early not-found returns of Raw", n, 1)
 }
